@@ -87,7 +87,15 @@ func (c *FnCtx) inspectSchema(st *State, call *ast.CallExpr, rootE ast.Expr, lit
 	log := c.dryRun(st, func(s *State) {
 		c.runClosureBody(s, lit, []*Term{c.smt.freshConst("dry_n", SInt).withGo(nodeT)})
 	})
-	c.havocWrites(st, log)
+	entryAlloc := c.pre.alloc
+	if ls != nil && ls.FrameEntry {
+		entryAlloc = st.alloc
+	}
+	frames := c.havocWrites(st, log)
+	useFrame := ls != nil && ls.Frame
+	if useFrame {
+		st.pc = append(st.pc, c.loopFrame(st, frames, entryAlloc)...)
+	}
 	iv := c.smt.freshConst("insp_i", SInt)
 	st.pc = append(st.pc, mkLe(intLit(0), iv), mkLe(iv, n))
 	env["$i"] = iv
@@ -98,9 +106,34 @@ func (c *FnCtx) inspectSchema(st *State, call *ast.CallExpr, rootE ast.Expr, lit
 	node := c.sliceAt(ev, iv)
 	b.pc = append(b.pc, mkOr(mkEq(node, intLit(0)), mk("sf_inspIn", SBool, node, root)))
 	env["$node"] = node
+	c.smt.fun("sf_properAnc", []string{SInt, SInt}, SBool)
+	prunedAbove := func(s *State, n *Term) *Term {
+		// some proper ancestor of n inside the walked subtree is a node at which the closure returns false
+		c.quantN++
+		av := leaf(fmt.Sprintf("anc!%d", c.quantN), SInt)
+		env3 := map[string]*Term{}
+		for k, v := range env {
+			env3[k] = v
+		}
+		env3["$node"] = av.withGo(nodeT)
+		pr := c.specEvalAt(s, ls.Prunes, env3, c.pre, call)
+		return mkExists([]Bound{{av.Op, SInt}}, mkAnd(mk("sf_inspIn", SBool, av, root), mk("sf_properAnc", SBool, av, node0(n)), pr), []*Term{mk("sf_properAnc", SBool, av, node0(n))})
+	}
+	if ls != nil && ls.Prunes != nil {
+		c.trustedUsed["schema: go/ast.Inspect skips exactly the subtrees below nodes at which the function returns false"] = true
+		b.pc = append(b.pc, mkOr(mkEq(node, intLit(0)), mkNot(prunedAbove(b, node))))
+	}
 	for _, o := range c.runClosureBody(b, lit, []*Term{node.withGo(nodeT)}) {
 		if o.flow != FReturn {
 			c.unsupportedf(lit, "closure body leaves with break/continue")
+		}
+		if ls != nil && ls.Prunes != nil && len(o.st.ret) == 1 {
+			env3 := map[string]*Term{}
+			for k, v := range env {
+				env3[k] = v
+			}
+			pr := c.specEvalAt(o.st, ls.Prunes, env3, c.pre, call)
+			c.oblige(o.st, "prune", call, "", "the function returns false exactly at the nodes the contract says it prunes: "+ls.Prunes.String(), mkImplies(mkNot(mkEq(node, intLit(0))), mkEq(o.st.ret[0], mkNot(pr))))
 		}
 		env2 := map[string]*Term{}
 		for k, v := range env {
@@ -111,10 +144,21 @@ func (c *FnCtx) inspectSchema(st *State, call *ast.CallExpr, rootE ast.Expr, lit
 			env2["$ret"] = o.st.ret[0]
 		}
 		c.checkInvs(o.st, ls, "inv-step", call, 0, env2)
+		if useFrame {
+			for k, g := range c.loopFrame(o.st, frames, entryAlloc) {
+				c.oblige(o.st, "inv-step", call, fmt.Sprintf("loop0.frame%d", k+1), "loop frame: locations allocated before the walk are unchanged in "+c.lastFrameNames[k], g)
+			}
+		}
 	}
 	// continue after the walk
 	st.pc = append(st.pc, mkEq(iv, n))
-	if alwaysTrue(lit) {
+	if ls != nil && ls.Prunes != nil {
+		// every node of the subtree that is not below a pruning node is among the events
+		c.quantN++
+		nv := leaf(fmt.Sprintf("in!%d", c.quantN), SInt)
+		env["$node"] = nv
+		st.pc = append(st.pc, mkForall([]Bound{{nv.Op, SInt}}, mkImplies(mkAnd(mk("sf_inspIn", SBool, nv, root), mkNot(prunedAbove(st, nv))), c.seqContains(ev, nv)), []*Term{mk("sf_inspIn", SBool, nv, root)}))
+	} else if alwaysTrue(lit) {
 		// the closure never prunes: every node of the subtree is among the events (assumed go/ast contract)
 		c.trustedUsed["schema: go/ast.Inspect with a function that always returns true visits every node of the subtree"] = true
 		c.quantN++
@@ -289,3 +333,5 @@ func alwaysTrue(lit *ast.FuncLit) bool {
 	})
 	return ok && found
 }
+
+func node0(n *Term) *Term { return n }
